@@ -55,7 +55,9 @@ func (g *gstate) genOptionSchema() (*optSchema, error) {
 	for i := range parts {
 		g.used[joinDots(parts[:i+1])] = 'p'
 	}
-	L := func(l descriptorpb.FieldDescriptorProto_Label) *descriptorpb.FieldDescriptorProto_Label { return l.Enum() }
+	L := func(l descriptorpb.FieldDescriptorProto_Label) *descriptorpb.FieldDescriptorProto_Label {
+		return l.Enum()
+	}
 	opt, rep := L(descriptorpb.FieldDescriptorProto_LABEL_OPTIONAL), L(descriptorpb.FieldDescriptorProto_LABEL_REPEATED)
 	fld := func(name string, num int32, label *descriptorpb.FieldDescriptorProto_Label, t descriptorpb.FieldDescriptorProto_Type, tn string) *descriptorpb.FieldDescriptorProto {
 		f := &descriptorpb.FieldDescriptorProto{Name: proto.String(name), Number: proto.Int32(num), Label: label, Type: t.Enum(), JsonName: proto.String(jsonName(name))}
